@@ -480,6 +480,12 @@ func (fc *FnCtx) applyWriteSet(ws *WriteSet) {
 	allocPre := fc.lookup("alloc")
 	for _, n := range ws.sorted() {
 		if ws.Fresh[n] && !ws.All {
+			if _, ok := fc.svSort[n]; !ok {
+				// first met through the callee's body: register it here
+				if srt, ok := ws.Sorts[n]; ok {
+					fc.stateVar(n, srt, true)
+				}
+			}
 			if _, ok := fc.svSort[n]; ok && strings.HasPrefix(string(fc.svSort[n]), "(Array Int ") {
 				old := fc.lookup(n)
 				nw := fc.havoc(n)
